@@ -186,3 +186,34 @@ Definition max_labels (rules : list rule) : option (list (ustr * label)) :=
     | None, _ => None
     end) orderings None.
 
+
+(* ---- the pairwise criterion: when is it safe to put two rules into different groups?  At some position the two term
+   maps can never produce the same term, whatever the data (Proofs/SeparableP.v).  N-TRIPLES lines do not show the graph,
+   so a difference at the graph position separates nothing there. *)
+Definition incomparable (a b : ustr) : bool := negb (prefixb a b) && negb (prefixb b a).
+Definition ttype_eq (a b : ttype) : bool :=
+  match a, b with TIri, TIri | TBnode, TBnode | TLit, TLit | TStar, TStar | TNone, TNone => true | _, _ => false end.
+Definition sep_subject (a b : keyed) : bool :=
+  let ta := r_stt (k_rule a) in let tb := r_stt (k_rule b) in
+  (negb (ttype_eq ta tb) && (is_bnode ta || is_bnode tb)) || (negb (is_bnode ta) && negb (is_bnode tb) && incomparable (k_si a) (k_si b)).
+(* two constant-valued maps with different values never agree; otherwise the constant prefixes must be incomparable *)
+Definition sep_maps (ka : mkind) (va : ustr) (kb : mkind) (vb : ustr) (ia ib : ustr) : bool :=
+  (mkind_eqb ka KConst && mkind_eqb kb KConst && negb (ueqb va vb)) || incomparable ia ib.
+Definition sep_predicate (a b : keyed) : bool :=
+  sep_maps (r_pk (k_rule a)) (r_pv (k_rule a)) (r_pk (k_rule b)) (r_pv (k_rule b)) (k_pi a) (k_pi b).
+Definition is_lit (t : ttype) : bool := match t with TLit => true | _ => false end.
+Definition sep_object (a b : keyed) : bool :=
+  let ta := r_ott (k_rule a) in let tb := r_ott (k_rule b) in
+  if is_bnode ta || is_bnode tb then negb (ttype_eq ta tb)
+  else if is_lit ta || is_lit tb then negb (ttype_eq ta tb) || negb (ueqb (lt_str (k_lt a)) (lt_str (k_lt b)))
+  else incomparable (k_oi a) (k_oi b).
+Definition sep_graph (a b : keyed) : bool :=
+  sep_maps (r_gk (k_rule a)) (r_gv (k_rule a)) (r_gk (k_rule b)) (r_gv (k_rule b)) (k_gi a) (k_gi b).
+Definition separable (nquads : bool) (a b : keyed) : bool :=
+  sep_subject a b || sep_predicate a b || sep_object a b || (nquads && sep_graph a b).
+(* all pairs (i, j, separable) of a rule table, for the correspondence *)
+Definition sep_matrix (nquads : bool) (rules : list rule) : option (list (ustr * ustr * bool)) :=
+  match all_some (map (keys_of rules) rules) with
+  | None => None
+  | Some ks => Some (flat_map (fun a => map (fun b => (r_id (k_rule a), r_id (k_rule b), separable nquads a b)) ks) ks)
+  end.
